@@ -140,7 +140,10 @@ let dict_dump (s : state) (from : int) : str =
      | DVar a -> " var " ^ soi (ion a)
      | DFun (imm, f, len) ->
        (if imm then " imm " else " fun ") ^
-       (match f with FInterp a -> "i" ^ soi (ion a) | FNative n -> "n" ^ string_of_coq n) ^
+       (* the two field words of an open enum have no name of their own in the implementation: its dump names a native
+          function after the first dictionary entry that holds it, i.e. ":" and "=" *)
+       (match f with FInterp a -> "i" ^ soi (ion a)
+                   | FNative n -> "n" ^ (match string_of_coq n with "%enum-field" -> ":" | "%enum-field-set" -> "=" | x -> x)) ^
        (match len with Some n -> " " ^ soi (ion n) | None -> " -"))) (drop from s.dict))
 
 type sess = { mutable states : state array; mutable cur : int; mutable locs : (int, str) Hashtbl.t }
@@ -183,15 +186,16 @@ let walk (ss : sess) (seed : int64) (maxfwd : int) (moves : int) : str =
   let pos = ref n in
   let result = ref None in
   if !failed <> "-" then begin
+    let dfail = dmp () in
     (match Vm.rnext (get ()) with
      | ROk ((), s') -> set s'
      | RErr (k, p, s') -> set s'; result := Some ("walk:MISMATCH rnext-after-failure " ^ err_text k p)
      | RPanic -> result := Some "walk:PANIC" | RUnsup -> raise Unsupported);
     if !result = None then begin
       let d = dmp () in
-      if d = !recd.(n) then pos := n
-      else if n > 0 && d = !recd.(n - 1) then pos := n - 1
-      else result := Some (Printf.sprintf "walk:MISMATCH after-failed-step n=%d got=%s" n d);
+      pos := (if dfail <> !recd.(n) then n else if n > 0 then n - 1 else 0);
+      if d <> !recd.(!pos) then
+        result := Some (Printf.sprintf "walk:MISMATCH after-failed-step n=%d partial=%b expected=%s got=%s" n (dfail <> !recd.(n)) !recd.(!pos) d);
       fnv h d
     end
   end;
@@ -274,7 +278,10 @@ let step (ss : sess) (t : str array) : str =
        if txt <> "ok" then begin
          let has_meta = (t.(0) = "eval" || t.(0) = "compile") &&
                         (let src = string_of_hexbytes t.(1) in
-                         let rec find i = i + 1 < Stdlib.String.length src && ((src.[i] = '#' && src.[i+1] = '(') || find (i + 1)) in find 0) in
+                         (* `enum` opens meta contexts like `#(` *)
+                         let rec find i = i + 1 < Stdlib.String.length src &&
+                                          ((src.[i] = '#' && src.[i+1] = '(') ||
+                                           (i + 3 < Stdlib.String.length src && Stdlib.String.sub src i 4 = "enum") || find (i + 1)) in find 0) in
          note_error ss s s' has_meta
        end else Hashtbl.remove ss.locs ss.cur
      | None -> ()); txt in
